@@ -324,6 +324,13 @@ fn binop_str(op: &BinOp) -> String {
     toks(op)
 }
 
+fn with_label(mut v: Value, label: &Option<syn::Label>) -> Value {
+    if let (Some(lb), Some(o)) = (label, v.as_object_mut()) {
+        o.insert("label".into(), json!(lb.name.ident.to_string()));
+    }
+    v
+}
+
 fn expr_json(e: &Expr) -> Value {
     let l = line(e);
     match e {
@@ -447,15 +454,21 @@ fn expr_json(e: &Expr) -> Value {
             if let Some(e) = &r.expr {
                 o.insert("e".into(), expr_json(e));
             }
+            if let Some(lb) = &r.label {
+                o.insert("label".into(), json!(lb.ident.to_string()));
+            }
             Value::Object(o)
         }
-        Expr::Continue(_) => json!({"k":"continue","l":l}),
+        Expr::Continue(c) => match &c.label {
+            Some(lb) => json!({"k":"continue","l":l,"label":lb.ident.to_string()}),
+            None => json!({"k":"continue","l":l}),
+        },
         Expr::Try(t) => json!({"k":"try","l":l,"e":expr_json(&t.expr)}),
         Expr::Assign(a) => json!({"k":"assign","l":l,"lhs":expr_json(&a.left),"rhs":expr_json(&a.right)}),
         Expr::Cast(c) => json!({"k":"cast","l":l,"e":expr_json(&c.expr),"ty":toks(&c.ty)}),
-        Expr::ForLoop(f) => json!({"k":"for","l":l,"pat":pat_json(&f.pat),"e":expr_json(&f.expr),"body":block_json(&f.body)}),
-        Expr::While(w) => json!({"k":"while","l":l,"c":expr_json(&w.cond),"body":block_json(&w.body)}),
-        Expr::Loop(w) => json!({"k":"loop","l":l,"body":block_json(&w.body)}),
+        Expr::ForLoop(f) => with_label(json!({"k":"for","l":l,"pat":pat_json(&f.pat),"e":expr_json(&f.expr),"body":block_json(&f.body)}), &f.label),
+        Expr::While(w) => with_label(json!({"k":"while","l":l,"c":expr_json(&w.cond),"body":block_json(&w.body)}), &w.label),
+        Expr::Loop(w) => with_label(json!({"k":"loop","l":l,"body":block_json(&w.body)}), &w.label),
         Expr::Await(a) => json!({"k":"await","l":l,"e":expr_json(&a.base)}),
         Expr::Async(a) => block_json(&a.block),
         Expr::Const(a) => block_json(&a.block),
